@@ -541,3 +541,41 @@ contract(
     note="calendar form: month index exactly n away, day = running minimum of the "
          "visited month lengths (n clamped single steps); other forms: shape, validity, "
          "time and zone (their date is tied to the calendar form by a ghost program)")
+
+
+# ---------------------------------------------------------------- Unix epoch (C18)
+_EPOCH = "(86400 * absday(1970, 1))"
+_ENV_REQ = ["timezone.time.timezone % 60 == 0 and timezone.time.altzone % 60 == 0",
+            "-86400 <= timezone.time.timezone and timezone.time.timezone <= 86400",
+            "-86400 <= timezone.time.altzone and timezone.time.altzone <= 86400"]
+_LOCAL = ("(-timezone.time.altzone if (timezone.time.localtime().tm_isdst == 1"
+          " and timezone.time.daylight) else -timezone.time.timezone)")
+contract(
+    "data:get_timepoint_from_seconds_since_unix_epoch", use_at_calls=False, opaque=["dby"],
+    ensures=["fresh(result)", "is_cal(result)", "valid_date(result)", "time_normal(result)",
+             "instant(result) == %s + num_seconds" % _EPOCH],
+    cases=[
+        Case("utc-int", lambda E, st: {"num_seconds": E.sym_int("num_seconds"), "utc": True},
+             ensures=["fresh(result)", "is_cal(result)", "valid_date(result)",
+                      "time_normal(result)",
+                      "instant(result) == %s + num_seconds" % _EPOCH,
+                      "result._time_zone._hours == 0 and result._time_zone._minutes == 0"]),
+        Case("utc-real", lambda E, st: {"num_seconds": E.sym_real("num_seconds"), "utc": True},
+             ensures=["valid_date(result)", "time_normal(result)",
+                      "instant(result) == %s + num_seconds" % _EPOCH,
+                      "result._time_zone._hours == 0 and result._time_zone._minutes == 0"]),
+        Case("local-real", lambda E, st: {"num_seconds": E.sym_real("num_seconds"),
+                                          "utc": False},
+             requires=_ENV_REQ,
+             ensures=["valid_date(result)", "time_normal(result)",
+                      "instant(result) == %s + num_seconds" % _EPOCH,
+                      "3600 * result._time_zone._hours + 60 * result._time_zone._minutes"
+                      " == " + _LOCAL, "tz_ok(result._time_zone)"]),
+    ])
+
+contract(
+    "data:TimePoint.seconds_since_unix_epoch", use_at_calls=False, opaque=["dby"],
+    requires=["normal24(self)", "whole_seconds(self)"],
+    returns="intstr(instant(self) - %s)" % _EPOCH,
+    cases=tz_cases(False),
+    note="whole-second points: the text of the exact integer distance from the epoch")
